@@ -152,7 +152,9 @@ func init() {
 			o.Faults, o.BindFailures, o.MIG = false, false, false
 			o.Hierarchy = 3
 			var s *Script
-			if chance(t, "pressure", 40) {
+			if chance(t, "departments", 25) {
+				s = GenDepartmentReclaimScript(t, "C07", o)
+			} else if chance(t, "pressure", 40) {
 				s = GenPressureScript(t, "C07", "reclaim-pressure", o)
 			} else {
 				s = GenScript(t, "C07", "reclaim-mixed", o)
